@@ -496,6 +496,23 @@ def Post (ctx : Ctx) (code : List Instr) (s0 : St) (pc : Nat) (st' : Option A) (
   (s'.pc = pc + 1 ∧ ∃ a' φ', st' = some a' ∧ FrOK ctx.frames s0 φ' ∧ Rel s0 φ' a' s') ∨
   (∃ t c φ', code[s'.pc]? = some (.label t) ∧ ctx.cert t = some c ∧ FrOK ctx.frames s0 φ' ∧ Rel s0 φ' c s')
 
+/-- how a step may change the frame valuation: only `and rsp` establishes (re-values) a frame, and only its own -/
+def FrStep (i : Instr) (φ φ' : Nat → Int) : Prop := ∀ j, (∀ m, i ≠ .andRsp j m) → φ' j = φ j
+
+theorem FrStep.rfl (i : Instr) (φ : Nat → Int) : FrStep i φ φ := fun _ _ => Eq.refl _
+
+/-- `Post` with the frame valuation after the step related to the one before (used by engine Scrub, which
+keeps its own facts about stack regions relative to the same frames) -/
+def PostF (ctx : Ctx) (code : List Instr) (s0 : St) (pc : Nat) (i : Instr) (φ : Nat → Int) (st' : Option A) (s' : St) : Prop :=
+  (s'.pc = pc + 1 ∧ ∃ a' φ', st' = some a' ∧ FrOK ctx.frames s0 φ' ∧ FrStep i φ φ' ∧ Rel s0 φ' a' s') ∨
+  (∃ t c φ', code[s'.pc]? = some (.label t) ∧ ctx.cert t = some c ∧ FrOK ctx.frames s0 φ' ∧ FrStep i φ φ' ∧ Rel s0 φ' c s')
+
+theorem PostF.post {ctx : Ctx} {code : List Instr} {s0 : St} {pc : Nat} {i : Instr} {φ : Nat → Int} {st' : Option A} {s' : St}
+    (h : PostF ctx code s0 pc i φ st' s') : Post ctx code s0 pc st' s' := by
+  rcases h with ⟨h1, a', φ', h2, h3, _, h4⟩ | ⟨t, c, φ', h1, h2, h3, _, h4⟩
+  · exact Or.inl ⟨h1, a', φ', h2, h3, h4⟩
+  · exact Or.inr ⟨t, c, φ', h1, h2, h3, h4⟩
+
 theorem ble15 {r : Nat} (h : Nat.ble r 15 = true) : r < 16 := by
   have := Nat.le_of_ble_eq_true h; omega
 
@@ -559,11 +576,11 @@ theorem rel_newframe {s0 φ a s} (hr : Rel s0 φ a s) (f : Nat) (x : Int) :
           unfold keyAddr valI at h ⊢
           rw [baseVal_frame s0 φ f x _ hkne, baseVal_frame s0 φ f x _ hne]; exact h
 
-theorem step1_sound {ctx : Ctx} {code : List Instr} {s0 : St} {φ : Nat → Int} {a : A} {s s' : St} {i : Instr}
+theorem step1_soundF {ctx : Ctx} {code : List Instr} {s0 : St} {φ : Nat → Int} {a : A} {s s' : St} {i : Instr}
     {st' : Option A}
     (hstep : Step ctx.tab code s s') (hi : code[s.pc]? = some i) (h1 : step1 ctx i a = some st')
     (hf : FrOK ctx.frames s0 φ) (hr : Rel s0 φ a s) :
-    Post ctx code s0 s.pc st' s' ∧ StoreBelow s0 s i := by
+    PostF ctx code s0 s.pc i φ st' s' ∧ StoreBelow s0 s i := by
   cases hstep with
   | plain regs' hi' hregs =>
     rename_i w sb
@@ -574,7 +591,7 @@ theorem step1_sound {ctx : Ctx} {code : List Instr} {s0 : St} {φ : Nat → Int}
     | false =>
       simp only [hc, cond_false, Option.some.injEq] at h1
       subst h1
-      refine ⟨Or.inl ⟨rfl, _, φ, rfl, hf, ?_⟩, trivial⟩
+      refine ⟨Or.inl ⟨rfl, _, φ, rfl, hf, FrStep.rfl _ _, ?_⟩, trivial⟩
       apply rel_filter _ _ regs' s.mem hr
       · intro r hlt hp _
         simp only [ble16_false hlt, Bool.false_or, Bool.not_eq_true'] at hp
@@ -594,7 +611,7 @@ theorem step1_sound {ctx : Ctx} {code : List Instr} {s0 : St} {φ : Nat → Int}
       cases hle : le a c with
       | false => simp [hle] at h1
       | true =>
-        exact ⟨Or.inr ⟨t, c, φ, labelIdx_get hl, hc, hf, rel_le hr hle⟩, trivial⟩
+        exact ⟨Or.inr ⟨t, c, φ, labelIdx_get hl, hc, hf, FrStep.rfl _ _, rel_le hr hle⟩, trivial⟩
   | jccT hi' hl =>
     rename_i t j
     rw [hi] at hi'; cases hi'
@@ -606,7 +623,7 @@ theorem step1_sound {ctx : Ctx} {code : List Instr} {s0 : St} {φ : Nat → Int}
       cases hle : le a c with
       | false => simp [hle] at h1
       | true =>
-        exact ⟨Or.inr ⟨t, c, φ, labelIdx_get hl, hc, hf, rel_le hr hle⟩, trivial⟩
+        exact ⟨Or.inr ⟨t, c, φ, labelIdx_get hl, hc, hf, FrStep.rfl _ _, rel_le hr hle⟩, trivial⟩
   | jccF hi' =>
     rename_i t
     rw [hi] at hi'; cases hi'
@@ -620,7 +637,7 @@ theorem step1_sound {ctx : Ctx} {code : List Instr} {s0 : St} {φ : Nat → Int}
       | true =>
         simp only [hle, cond_true, Option.some.injEq] at h1
         subst h1
-        exact ⟨Or.inl ⟨rfl, a, φ, rfl, hf, hr⟩, trivial⟩
+        exact ⟨Or.inl ⟨rfl, a, φ, rfl, hf, FrStep.rfl _ _, hr⟩, trivial⟩
   | call regs' hi' hregs hsp =>
     rename_i g
     rw [hi] at hi'; cases hi'
@@ -642,7 +659,7 @@ theorem step1_sound {ctx : Ctx} {code : List Instr} {s0 : St} {φ : Nat → Int}
           have hle : h + o ≤ 0 := of_decide_eq_true hd
           obtain ⟨_, _, _, hb, hsv⟩ := spOf_sound hs hr
           have hbb := bnd_sound hf hb
-          refine ⟨Or.inl ⟨rfl, _, φ, rfl, hf, ?_⟩, ?_⟩
+          refine ⟨Or.inl ⟨rfl, _, φ, rfl, hf, FrStep.rfl _ _, ?_⟩, ?_⟩
           · apply rel_filter _ _ regs' _ hr
             · intro r hlt hp _
               have : Nat.ble r 15 = true := Nat.ble_eq_true_of_le (by omega)
@@ -681,7 +698,7 @@ theorem step1_sound {ctx : Ctx} {code : List Instr} {s0 : St} {φ : Nat → Int}
               unfold valI; rw [hbase, hoff]; exact hsv.symm
             rw [hval] at hbelow hrel
             obtain ⟨_, hvb, hvo⟩ := mkV?_some hv
-            refine ⟨Or.inl ⟨rfl, _, φ, rfl, hf, ?_⟩, ?_⟩
+            refine ⟨Or.inl ⟨rfl, _, φ, rfl, hf, FrStep.rfl _ _, ?_⟩, ?_⟩
             · have h2 := hrel (s.pc + 1) (memStore s.mem (s.regs 4 - 8) (some (s.regs r))) (s.regs r)
                 (by intro z hz; apply memStore_frame; omega)
                 (by have : s.regs 4 + -8 = s.regs 4 - 8 := by omega
@@ -712,7 +729,7 @@ theorem step1_sound {ctx : Ctx} {code : List Instr} {s0 : St} {φ : Nat → Int}
             unfold valI; rw [hbase, hoff]; exact hsv.symm
           rw [hval] at hbelow hrel
           obtain ⟨_, hvb, hvo⟩ := mkV?_some hv
-          refine ⟨Or.inl ⟨rfl, _, φ, rfl, hf, ?_⟩, ?_⟩
+          refine ⟨Or.inl ⟨rfl, _, φ, rfl, hf, FrStep.rfl _ _, ?_⟩, ?_⟩
           · have h2 := hrel (s.pc + 1) (memStore s.mem (s.regs 4 - 8) v)
               (by intro z hz; apply memStore_frame; omega)
             apply rel_put_reg 4 v' (s.regs 4 - 8) (s.pc + 1) (by omega) h2
@@ -739,7 +756,7 @@ theorem step1_sound {ctx : Ctx} {code : List Instr} {s0 : St} {φ : Nat → Int}
           simp only [hv, Option.some.injEq] at h1
           subst h1
           obtain ⟨_, hvb, hvo⟩ := mkV?_some hv
-          refine ⟨Or.inl ⟨rfl, _, φ, rfl, hf, ?_⟩, trivial⟩
+          refine ⟨Or.inl ⟨rfl, _, φ, rfl, hf, FrStep.rfl _ _, ?_⟩, trivial⟩
           have hsl : ValOK s0 φ (slotVal a b o) x := slotVal_ok hr b o x (by rw [← hsv]; exact hx)
           have h2 := rel_put_reg r _ x (s.pc + 1) (ble15 hg.2) hr hsl
           apply rel_put_reg 4 v' (s.regs RSP + 8) (s.pc + 1) (by omega) h2
@@ -760,7 +777,7 @@ theorem step1_sound {ctx : Ctx} {code : List Instr} {s0 : St} {φ : Nat → Int}
         simp only [hv, Option.some.injEq] at h1
         subst h1
         obtain ⟨_, hvb, hvo⟩ := mkV?_some hv
-        refine ⟨Or.inl ⟨rfl, _, φ, rfl, hf, ?_⟩, trivial⟩
+        refine ⟨Or.inl ⟨rfl, _, φ, rfl, hf, FrStep.rfl _ _, ?_⟩, trivial⟩
         apply rel_put_reg 4 v' (s.regs RSP + k) (s.pc + 1) (by omega) hr
         right; unfold valI; rw [hvb, hvo]; show s.regs 4 + k = _; omega
   | andRsp d hi' hd0 hdm =>
@@ -791,7 +808,7 @@ theorem step1_sound {ctx : Ctx} {code : List Instr} {s0 : St} {φ : Nat → Int}
             unfold valI at this; rw [hc.2] at this
             simp only [baseVal] at this
             omega
-          refine ⟨Or.inl ⟨rfl, _, (fun i => if i = f then s.regs 4 - d else φ i), rfl, ?_, ?_⟩, trivial⟩
+          refine ⟨Or.inl ⟨rfl, _, (fun i => if i = f then s.regs 4 - d else φ i), rfl, ?_, ?_, ?_⟩, trivial⟩
           · intro i k' m'' hi2
             by_cases hif : i = f
             · subst hif
@@ -799,6 +816,10 @@ theorem step1_sound {ctx : Ctx} {code : List Instr} {s0 : St} {φ : Nat → Int}
               simp only [if_true, Int.ofNat_eq_natCast] at hdm ⊢
               omega
             · simp only [hif, if_false]; exact hf i k' m'' hi2
+          · intro j hj
+            by_cases hjf : j = f
+            · subst hjf; exact absurd rfl (hj _)
+            · simp only [hjf, if_false]
           · have h2 := rel_newframe hr f (s.regs 4 - d)
             apply rel_put_reg 4 _ (s.regs RSP - d) (s.pc + 1) (by omega) h2
             right
@@ -816,7 +837,7 @@ theorem step1_sound {ctx : Ctx} {code : List Instr} {s0 : St} {φ : Nat → Int}
       simp only [hg, cond_false, Option.some.injEq] at h1
       subst h1
       simp only [Bool.or_eq_false_iff, Bool.not_eq_false'] at hg
-      refine ⟨Or.inl ⟨rfl, _, φ, rfl, hf, ?_⟩, trivial⟩
+      refine ⟨Or.inl ⟨rfl, _, φ, rfl, hf, FrStep.rfl _ _, ?_⟩, trivial⟩
       exact rel_put_reg d _ (s.regs r) (s.pc + 1) (ble15 hg.1.1) hr (hr.1 r (ble15 hg.1.2))
   | lea hi' =>
     rename_i d b k
@@ -829,7 +850,7 @@ theorem step1_sound {ctx : Ctx} {code : List Instr} {s0 : St} {φ : Nat → Int}
       simp only [hg, cond_false, Option.some.injEq] at h1
       subst h1
       simp only [Bool.or_eq_false_iff, Bool.not_eq_false'] at hg
-      refine ⟨Or.inl ⟨rfl, _, φ, rfl, hf, ?_⟩, trivial⟩
+      refine ⟨Or.inl ⟨rfl, _, φ, rfl, hf, FrStep.rfl _ _, ?_⟩, trivial⟩
       apply rel_put_reg d _ (s.regs b + k) (s.pc + 1) (ble15 hg.1.1) hr
       cases h0 : Nat.beq (get a b) 0 with
       | true => simp only [h0, cond_true] at hv'; left; exact hv'.symm
@@ -855,7 +876,7 @@ theorem step1_sound {ctx : Ctx} {code : List Instr} {s0 : St} {φ : Nat → Int}
       simp only [hg, cond_false, Option.some.injEq] at h1
       subst h1
       simp only [Bool.or_eq_false_iff, Bool.not_eq_false'] at hg
-      refine ⟨Or.inl ⟨rfl, _, φ, rfl, hf, ?_⟩, trivial⟩
+      refine ⟨Or.inl ⟨rfl, _, φ, rfl, hf, FrStep.rfl _ _, ?_⟩, trivial⟩
       apply rel_put_reg d _ x (s.pc + 1) (ble15 hg.1.1) hr
       cases hs : isStk (get a b) with
       | false => simp only [hs, cond_false] at hv'; left; exact hv'.symm
@@ -883,7 +904,7 @@ theorem step1_sound {ctx : Ctx} {code : List Instr} {s0 : St} {φ : Nat → Int}
       have hval := reg_val hr b (ble15 hg.1.2) hne
       obtain ⟨hbelow, hrel⟩ := doStore_some hds hf hr
       rw [← hval] at hbelow hrel
-      refine ⟨Or.inl ⟨rfl, _, φ, rfl, hf, ?_⟩, hbelow⟩
+      refine ⟨Or.inl ⟨rfl, _, φ, rfl, hf, FrStep.rfl _ _, ?_⟩, hbelow⟩
       exact hrel (s.pc + 1) _ (s.regs r) (by intro z hz; exact memStore_frame _ _ _ _ hz)
         (memStore_self _ _ _) (hr.1 r (ble15 hg.2))
   | storeK hi' =>
@@ -901,13 +922,13 @@ theorem step1_sound {ctx : Ctx} {code : List Instr} {s0 : St} {φ : Nat → Int}
       obtain ⟨hbelow, hrel⟩ := doStore_none hds hf hr
       rw [← hval] at hbelow hrel
       simp only [Int.ofNat_eq_natCast] at hbelow hrel
-      refine ⟨Or.inl ⟨rfl, _, φ, rfl, hf, ?_⟩, hbelow⟩
+      refine ⟨Or.inl ⟨rfl, _, φ, rfl, hf, FrStep.rfl _ _, ?_⟩, hbelow⟩
       exact hrel (s.pc + 1) _ (by intro z hz; exact memKill_frame _ _ _ _ hz)
   | storeIdx hi' =>
     rw [hi] at hi'; cases hi'
     simp only [step1, Option.some.injEq] at h1
     subst h1
-    exact ⟨Or.inl ⟨rfl, a, φ, rfl, hf, hr⟩, trivial⟩
+    exact ⟨Or.inl ⟨rfl, a, φ, rfl, hf, FrStep.rfl _ _, hr⟩, trivial⟩
   | storeStatic hi' =>
     rename_i t
     rw [hi] at hi'; cases hi'
@@ -917,7 +938,7 @@ theorem step1_sound {ctx : Ctx} {code : List Instr} {s0 : St} {φ : Nat → Int}
     | true =>
       simp only [hc, cond_true, Option.some.injEq] at h1
       subst h1
-      exact ⟨Or.inl ⟨rfl, a, φ, rfl, hf, hr⟩, trivial⟩
+      exact ⟨Or.inl ⟨rfl, a, φ, rfl, hf, FrStep.rfl _ _, hr⟩, trivial⟩
   | leave x hi' hx =>
     rw [hi] at hi'; cases hi'
     simp only [step1] at h1
@@ -933,7 +954,7 @@ theorem step1_sound {ctx : Ctx} {code : List Instr} {s0 : St} {φ : Nat → Int}
         obtain ⟨_, hvb, hvo⟩ := mkV?_some hv
         have hne := (isStk_true hs).1
         have hval := reg_val hr 5 (by omega) hne
-        refine ⟨Or.inl ⟨rfl, _, φ, rfl, hf, ?_⟩, trivial⟩
+        refine ⟨Or.inl ⟨rfl, _, φ, rfl, hf, FrStep.rfl _ _, ?_⟩, trivial⟩
         have h2 := rel_put_reg 4 v' (s.regs RBP + 8) (s.pc + 1) (by omega) hr
           (by right; unfold valI at hval ⊢; rw [hvb, hvo]; show s.regs 5 + 8 = _; omega)
         apply rel_put_reg 5 _ x (s.pc + 1) (by omega) h2
@@ -942,6 +963,14 @@ theorem step1_sound {ctx : Ctx} {code : List Instr} {s0 : St} {φ : Nat → Int}
         unfold valI at hval
         show s.mem (s.regs 5) = some y
         rw [hval]; exact hy
+
+theorem step1_sound {ctx : Ctx} {code : List Instr} {s0 : St} {φ : Nat → Int} {a : A} {s s' : St} {i : Instr}
+    {st' : Option A}
+    (hstep : Step ctx.tab code s s') (hi : code[s.pc]? = some i) (h1 : step1 ctx i a = some st')
+    (hf : FrOK ctx.frames s0 φ) (hr : Rel s0 φ a s) :
+    Post ctx code s0 s.pc st' s' ∧ StoreBelow s0 s i :=
+  let h := step1_soundF hstep hi h1 hf hr
+  ⟨h.1.post, h.2⟩
 
 /-! ## the threaded checker -/
 
